@@ -110,10 +110,28 @@ INFO = {
  "C16-8": ("C16", "AE::encrypt derives its nonce from key and plaintext", "two direct AE encryptions under the same key and plaintext"),
  "C17-8": ("C17", "TracingSecretKey::read accumulates markers across registered identifiers (buffer never cleared)", "a master key with two or more issued keys, stored and reloaded"),
  "C18-8": ("C18", "full_decaps (hybridized) stops scanning after the first opened component; flag never reset", "an all-hybridized original with two or more targets: the re-encapsulation loses targets"),
+ "C01-9": ("C01", "generate_complementary_points returns only the broadcast point for an empty clause", "a user key for '*' on a non-empty structure: it opens nothing but '*' encapsulations"),
+ "C02-9": ("C02", "the '||' branch of parse keeps only the first operand queued before the operator", "an unparenthesised 'A && B || C && D' user policy: the key receives every right containing A"),
+ "C03-9": ("C03", "generate_complementary_points drops the combinations containing a disabled attribute", "a key generated after an attribute was disabled, whose policy does not name that attribute's dimension"),
+ "C04-9": ("C04", "generate_complementary_rights skips a clause whose own point was already produced by an earlier clause", "rekey of a disjunction whose more specific clause comes first: rights of the later clause keep their old secret"),
+ "C05-9": ("C05", "prune rewritten with try_for_each over keep(..).map(drop): stops at the first right the master key lacks", "prune while the structure is ahead of the master key (attribute added, no update yet)"),
+ "C06-9": ("C06", "MasterSecretKey::write writes any(activated) of the chain for every secret", "rekey, disable + update, master key stored and reloaded: the re-derived public key publishes the right again"),
+ "C07-9": ("C07", "R25519Point::read masks the top bit of the last byte before decompression (non-canonical encodings accepted)", "bit 7 of the last byte of a trap flipped: same object, same secret"),
+ "C08-9": ("C08", "sign covers only the newest secret of each chain", "a key with 2 revisions of a right whose older revisions are removed, swapped or overwritten"),
+ "C09-9": ("C09", "Dict::update_key returns Ok early when the new key equals the old one", "renaming an attribute of a hierarchy to its own name, existing or not"),
+ "C10-9": ("C10", "prune refuses rights the master key lacks from inside its loop", "prune while the structure is ahead of the master key: error after some rights were already pruned"),
+ "C11-9": ("C11", "update_msk skips the KEM-key drop for rights that are DecryptOnly in the same update", "a hint downgrade landing in the same update as a deactivation"),
+ "C12-9": ("C12", "h_decaps shuffles the components before hashing T and U (shadowed variable)", "a hybridized encapsulation with 2 or more targets: an authorized key is refused most of the time"),
+ "C13-9": ("C13", "MasterSecretKey::write writes the front secret's activation flag for every secret of a chain", "rekey, disable + update, then a master-key round-trip: older activated revisions come back deactivated"),
+ "C14-9": ("C14", "UserId::read collects with flat_map over Results (errors swallowed, loop runs for the announced count)", "a user key or master key announcing 2^48..2^64-1 markers: deserialization does not terminate"),
+ "C15-9": ("C15", "parse indexes the second operator byte directly (e.as_bytes()[1])", "a string or group ending with a lone '|' or '&': panic instead of an error"),
+ "C16-9": ("C16", "EncryptedHeader::generate falls back to an all-zero nonce when the RNG mutex is contended (try_lock)", "headers with metadata generated concurrently on one shared instance"),
+ "C17-9": ("C17", "UserId::tracing_level returns the marker count (off by one)", "any refresh: refresh_id takes its level-mismatch branch, re-issues the identifier and drops the old one"),
+ "C18-9": ("C18", "full_decaps tries only the chain depth at which the first component was opened", "a multi-target original whose targets were rekeyed a different number of times"),
  "C07-2": ("C07", "Encapsulations::read accepts any flag value other than 1 as 'classic' (flag turned into a bool, error branch removed)", "a classic encapsulation whose flag byte is changed in bits 1..6: it deserializes to the same object and still decapsulates"),
 }
 logs = ""
-for f in ("/var/tmp/seedeval.txt", "/var/tmp/seedeval2.txt", "/var/tmp/seedeval3.txt", "/var/tmp/seedeval4.txt", "/var/tmp/seedeval5.txt", "/var/tmp/seedeval5_c03.txt", "/var/tmp/seedeval6.txt", "/var/tmp/seedeval6b.txt", "/var/tmp/seedeval6c.txt", "/var/tmp/seedeval7.txt", "/var/tmp/seedeval8.txt", "/var/tmp/seedeval9.txt", "/var/tmp/seedeval10.txt", "/var/tmp/seedeval11.txt", "/var/tmp/seedeval12.txt", "/var/tmp/seedeval13.txt", "/var/tmp/seedeval14.txt"):
+for f in ("/var/tmp/seedeval.txt", "/var/tmp/seedeval2.txt", "/var/tmp/seedeval3.txt", "/var/tmp/seedeval4.txt", "/var/tmp/seedeval5.txt", "/var/tmp/seedeval5_c03.txt", "/var/tmp/seedeval6.txt", "/var/tmp/seedeval6b.txt", "/var/tmp/seedeval6c.txt", "/var/tmp/seedeval7.txt", "/var/tmp/seedeval8.txt", "/var/tmp/seedeval9.txt", "/var/tmp/seedeval10.txt", "/var/tmp/seedeval11.txt", "/var/tmp/seedeval12.txt", "/var/tmp/seedeval13.txt", "/var/tmp/seedeval14.txt", "/var/tmp/seedeval15.txt", "/var/tmp/seedeval16.txt"):
     if os.path.exists(f):
         logs += open(f).read()
 # split per section
@@ -125,7 +143,9 @@ for ln in logs.split("\n"):
     m = re.match(r"=== (\S+)", ln)
     if m:
         key = m.group(1)
-        if key.startswith("/tmp/mut8/"):
+        if key.startswith("/tmp/mut9/"):
+            cur = key.split("/")[-1] + "-9"
+        elif key.startswith("/tmp/mut8/"):
             cur = key.split("/")[-1] + "-8"
         elif key.startswith("/tmp/mut7/"):
             cur = key.split("/")[-1] + "-7"
@@ -148,7 +168,7 @@ for ln in logs.split("\n"):
     elif cur:
         sections[cur].append(ln)
 confirm = {}
-for f in ("/var/tmp/confirm.txt", "/var/tmp/confirm2.txt", "/var/tmp/confirm3.txt", "/var/tmp/confirm4.txt", "/var/tmp/confirm5.txt", "/var/tmp/confirm6.txt", "/var/tmp/confirm7.txt", "/var/tmp/confirm8.txt", "/var/tmp/confirm8b.txt"):
+for f in ("/var/tmp/confirm.txt", "/var/tmp/confirm2.txt", "/var/tmp/confirm3.txt", "/var/tmp/confirm4.txt", "/var/tmp/confirm5.txt", "/var/tmp/confirm6.txt", "/var/tmp/confirm7.txt", "/var/tmp/confirm8.txt", "/var/tmp/confirm8b.txt", "/var/tmp/confirm9.txt"):
     if os.path.exists(f):
         for ln in open(f):
             m = re.match(r"(C\d+(?:-\d)?) \| (.*)", ln)
